@@ -24,6 +24,17 @@ PROVIDED_D = [14, 15, 16, 17, 18, 19, 21, 22, 24, 26, 27, 28, 30, 32, 34, 35]
 def rust_pat(mid, p):
     path, nargs = METHODS[mid]
     body = ""
+    if p.get("macro") and p["matcher"] is not None and nargs in (1, 2) and not (p["matcher"] >> 16) & 1:
+        # the same matcher written with matching!: a guarded wildcard-only pattern when the mask accepts everything / nothing (a guard
+        # that does not look at the arguments), a binding with a guard otherwise; the harness' pattern name is set afterwards
+        m8 = p["matcher"] & 255
+        wild = "(_)" if nargs == 1 else "(_, _)"
+        if m8 == 255: inv = f"matching!({wild} if std::hint::black_box(true))"
+        elif m8 == 0: inv = f"matching!({wild} if std::hint::black_box(false))"
+        elif nargs == 1: inv = f"matching!((a) if ({m8}u64 >> *a) & 1 == 1)"
+        else: inv = f"matching!((a, _) if ({m8}u64 >> *a) & 1 == 1)"
+        dbg = f"m.pat_debug(\"(p{p['dbg']})\", \"case.rs\", {p['dbg']}); " if p["dbg"] is not None else ""
+        return f"&|m: &mut Matching<{path}>| {{ let inner: &dyn Fn(&mut Matching<{path}>) = {inv}; inner(m); {dbg}}}"
     if p["matcher"] is not None and nargs == 0:
         body += f"m.func(|_: &(), _| ({p['matcher']}u64 >> 8) & 1 == 1); "       # the model's argument code of the empty tuple is 8
     elif p["matcher"] is not None:
